@@ -185,6 +185,8 @@ def fault_client(srv, frames, f):
     step = f['step']
     if step in ('connect', 'midhdr', 'hdr', 'midpay', 'pay'):
         log = c.run('bytes', f['cut'], f['mode'])
+    elif step == 'reply':
+        log = c.run('reply', 0, f['mode'])           # context request completed (reply read), then the client goes away
     elif f.get('split'):
         log = c.run(step, 0, f['mode'], hold=True)
         L.vanish([c.ctrl], f['mode'])        # the control connection breaks first ...
@@ -216,11 +218,15 @@ def scenario_c11(scn):
             hp.enqueue(41)
             first = hp.next_result(timeout=HANG)
             ho = RemoteWorker(tg.wait_file, args=(release, 77), host=srv.addr, main_path=L.TARGETS_PATH)
-            return ctx, hp, first, ho
-        r = L.bounded(setup, 20)
+            hc = PersistentRemoteWorker(None, host=srv.addr, context=L.REC_CTX_ID, main_path=L.TARGETS_PATH)
+            hc.enqueue(40)
+            if hc.next_result(timeout=HANG) != 40005:
+                raise MachineryError('C11 set-up: the healthy context worker does not run the context target')
+            return ctx, hp, first, ho, hc
+        r = L.bounded(setup, 25)
         if r[0] != 'ok' or r[1][2] != 41:
             raise MachineryError('C11 set-up (healthy clients on a fresh server) failed: %r' % (r,))
-        ctx, hp, _, ho = r[1]
+        ctx, hp, _, ho, hc = r[1]
         srv.note_descendants()
         for k, f in enumerate(scn['faults']):
             frames = L.retarget([bytes.fromhex(x) for x in scn['streams'][f['req']]], [tuple(p) for p in scn['pos'][f['req']]], srv.addr[1])
@@ -261,6 +267,29 @@ def scenario_c11(scn):
             ro = L.bounded(o, HANG + 1)
             he = L.bounded(lambda: ho.has_error, HANG)
             out.append({'kind': 'oneshot', 'got': L.tag(ro), 'want': 'v:77', 'err': L.tag(he)})
+            # the healthy client's context: the worker in it still answers with the context's work, the context is
+            # still registered (a new worker in it is accepted and gets the same work); both end without error
+            def cw():
+                hc.enqueue(43)
+                v = hc.next_result(timeout=HANG)
+                if not hc.wait(HANG):
+                    return 'unfinished'
+                return 'v:%s/%s' % (v, hc.result)
+            rc = L.bounded(cw, 2 * HANG + 1)
+            he = L.bounded(lambda: hc.has_error, HANG)
+            out.append({'kind': 'ctxworker', 'got': rc[1] if rc[0] == 'ok' else L.tag(rc), 'want': 'v:43005/2', 'err': L.tag(he)})
+            box = {}
+            def nw():
+                w = PersistentRemoteWorker(None, host=srv.addr, context=L.REC_CTX_ID, main_path=L.TARGETS_PATH)
+                box['w'] = w
+                w.enqueue(44)
+                v = w.next_result(timeout=HANG)
+                if not w.wait(HANG):
+                    return 'unfinished'
+                return 'v:%s/%s' % (v, w.result)
+            rn = L.bounded(nw, 3 * HANG)
+            he = L.bounded(lambda: box['w'].has_error, HANG) if 'w' in box else ('ok', False if rn[0] == 'ok' else True)
+            out.append({'kind': 'newctxworker', 'got': rn[1] if rn[0] == 'ok' else L.tag(rn), 'want': 'v:44005/1', 'err': L.tag(he)})
             return out
         obs['others'] = others()
         time.sleep(0.05)
@@ -449,7 +478,7 @@ def _error_kind(w):
 
 
 def scenario_c12(scn):
-    """scn: {id, how: 'terminate'|'sigterm', kids: [{state, persistent}], racer: None|{step, delay}, streams, pos, logdir}
+    """scn: {id, how: 'terminate'|'sigterm'|'tshort' (terminate(timeout=0.3, force=True)), kids: [{state, persistent}], racer: None|{step, delay}, streams, pos, logdir}
     kid states: coop / swallow (target running), idle (persistent, no input), finished, inctx (idle in a
     context), inctx-coop / inctx-swallow (running the context's target), starting (scripted client in the
     middle of the handshake when the stop arrives; no parent-side object)."""
@@ -558,8 +587,10 @@ def scenario_c12(scn):
 
         # the stop
         t0 = time.time()
-        if scn['how'] == 'terminate':
-            r = L.bounded(lambda: srv.proc.terminate(timeout=5, force=True), 30)
+        if scn['how'] in ('terminate', 'tshort'):
+            # tshort: the parent's join expires while the server is still in its `finally` loop -> SIGTERM lands inside it
+            tmo = 5 if scn['how'] == 'terminate' else 0.3
+            r = L.bounded(lambda: srv.proc.terminate(timeout=tmo, force=True), 30)
             notes['stop'] = L.tag(r)
         else:
             os.kill(srv.pid, signal.SIGTERM)
